@@ -193,7 +193,12 @@ pub fn run(args: &Args) {
     let cases = read_json_lines(args.req("cases"));
     let mut out = Out::file(args.req("out"));
     let mut n = 0;
-    for case in &cases {
+    let skip = args.num("skip", 0) as usize;
+    for (ci, case) in cases.iter().enumerate() {
+        if ci < skip {
+            continue;
+        }
+        progress(ci);
         let r = match guarded(|| run_case(case)) {
             Ok(v) => v,
             Err(p) => json!({"id": case["id"], "panic": p}),
